@@ -182,6 +182,8 @@ def run_frontend(fe, tab, config_dict):
             df.index = pd.DatetimeIndex(times)
         elif variant == "dup":
             df.index = [i // 2 for i in range(n)]  # repeated index labels
+        elif variant == "secunit":
+            df["time"] = df["time"].astype("datetime64[s]")   # a time column at whole-second resolution
         return list(PandasStream(df).run(cfg))
     if kind == "numpy":
         axes = {k2: cols[k] for k, k2 in (("z", "z"), ("lat", "lat"), ("lon", "lon")) if k in cols}
